@@ -40,6 +40,9 @@ type c15Params struct {
 	// IdleMs: the side that answers does so only after this much (virtual) time, and the side that waits for the
 	// answer sets no read deadline of its own (no handshake datagram is lost in such a case)
 	IdleMs int `json:"idle_ms,omitempty"`
+	// AlertLike: after its other payloads the client also sends payloads whose bytes look like alerts and other
+	// record-layer artefacts (01 00, 02 28, 00 00, 01, 14 01 01): each must come out of ReadFrom as it went in
+	AlertLike bool `json:"alert_like,omitempty"`
 	Tight   bool `json:"tight,omitempty"`
 	// ChainPad: extra certificates in the server's chain, so that the Certificate message exceeds one record
 	ChainPad int `json:"chain_pad,omitempty"`
@@ -68,6 +71,9 @@ func (c15) Count(tier string) int {
 func (c15) Make(tier string, seed uint64, i int) *Case {
 	return &Case{Prop: "C15", Index: i, Seed: CaseSeed(seed, "C15", i)}
 }
+
+// payloads that look like record-layer artefacts: close_notify, a fatal alert, zeros, one byte, a ChangeCipherSpec
+var c15AlertLike = [][]byte{{1, 0}, {2, 40}, {0, 0}, {1}, {20, 1, 1}, {1, 0}}
 
 func pmtuOf(v int) int {
 	if v <= 0 {
@@ -154,6 +160,9 @@ func drawC15(src *vs.Src) *c15Params {
 	}
 	if nl == 0 && src.Bool(1, 3) {
 		p.IdleMs = pickInt(src, []int{1500, 5000})
+	}
+	if src.Bool(1, 4) {
+		p.AlertLike, p.Zero, p.Big = true, false, 0
 	}
 	if p.PMTUC < 200 && p.PMTUC > 0 || p.PMTUS < 200 && p.PMTUS > 0 {
 		// below the range the loss cases were designed for (what a lost datagram costs there is C19's subject)
@@ -262,6 +271,8 @@ func (c15) Run(c *Case, src *vs.Src) *Result {
 		bigErr  error
 		zeroGot []int
 		readErr error
+		alertGot [][]byte
+		alertErr error
 	}
 	var ci, si io
 	mk := func(i, n int, tag byte) []byte {
@@ -295,6 +306,13 @@ func (c15) Run(c *Case, src *vs.Src) *Result {
 					st.wErr = append(st.wErr, fmt.Sprintf("Write(%d bytes) = %d, %v", len(bigData), m, err))
 				}
 			}
+			if first && p.AlertLike {
+				for _, b := range c15AlertLike {
+					if m, err := d.WriteToAddr(b); err != nil || m != len(b) {
+						st.wErr = append(st.wErr, fmt.Sprintf("WriteTo(% x) = %d, %v", b, m, err))
+					}
+				}
+			}
 			if first && p.Zero {
 				if m, err := d.WriteToAddr([]byte{}); err != nil || m != 0 {
 					st.wErr = append(st.wErr, fmt.Sprintf("WriteTo(empty) = %d, %v", m, err))
@@ -321,6 +339,18 @@ func (c15) Run(c *Case, src *vs.Src) *Result {
 			if !first && p.Big > 0 {
 				me.SetReadDeadline(vs.Now().Add(3 * time.Second))
 				st.bigGot, st.bigErr = readFull(me, len(bigData))
+			}
+			if !first && p.AlertLike {
+				buf = make([]byte, 20000)
+				for range c15AlertLike {
+					me.SetReadDeadline(vs.Now().Add(3 * time.Second))
+					n, err := d.ReadFromAny(buf)
+					if err != nil {
+						st.alertErr = err
+						break
+					}
+					st.alertGot = append(st.alertGot, append([]byte(nil), buf[:n]...))
+				}
 			}
 			if !first && p.Zero {
 				buf = make([]byte, 20000)
@@ -464,6 +494,18 @@ func (c15) Run(c *Case, src *vs.Src) *Result {
 			r.Violate("big-write", sigp+" big-write", "a Write of %d bytes arrived as %d bytes (err %v)", len(bigData), len(si.bigGot), si.bigErr)
 		}
 	}
+	if p.AlertLike && si.readErr == nil {
+		for k, b := range c15AlertLike {
+			if k >= len(si.alertGot) || !bytes.Equal(si.alertGot[k], b) {
+				var got []byte
+				if k < len(si.alertGot) {
+					got = si.alertGot[k]
+				}
+				r.Violate("boundary", "C15 payload-by-content", "WriteTo of the %d-byte payload % x: the peer's ReadFrom returned % x (error %v; %d of %d such payloads arrived)", len(b), b, got, si.alertErr, len(si.alertGot), len(c15AlertLike))
+				break
+			}
+		}
+	}
 	if p.Zero && !(len(si.zeroGot) == 2 && si.zeroGot[0] == 0 && si.zeroGot[1] == 6) {
 		r.Violate("empty-payload", "C15 empty-payload", "WriteTo of an empty payload followed by a 6-byte marker: the peer's ReadFrom calls returned sizes %v (want [0 6])", si.zeroGot)
 	}
@@ -481,6 +523,9 @@ func (c15) Run(c *Case, src *vs.Src) *Result {
 		}
 		nApp := [2]int{len(v.AppData[0]), len(v.AppData[1])}
 		wantC := len(expC2S)
+		if p.AlertLike {
+			wantC += len(c15AlertLike)
+		}
 		if nApp[1] != len(expS2C) {
 			r.Violate("boundary", "C15 writeto-records "+zeroTag(expS2C, nApp[1]), "server made %d WriteTo calls within the maximum payload but %d application records are on the wire", len(expS2C), nApp[1])
 		}
